@@ -189,6 +189,10 @@ def body(chk):
         extreme.append(Dist([lo_, hi_], [1 - eps, eps], f"two-point, mass {float(eps)} at the top"))
         extreme.append(Dist([lo_, hi_], [eps, 1 - eps], f"two-point, mass {float(eps)} at the bottom"))
         extreme.append(Dist([lo_, (lo_ + hi_) / 2, hi_], [1 - 2 * eps, eps, eps], f"three-point, mass {float(eps)} in the upper tail"))
+        # the median carries just enough mass: the quantile function jumps to the maximum (leaves the minimum) within one grid step of level 1/2
+        extreme.append(Dist([lo_, (lo_ + hi_) / 2, hi_], [F(1, 4), F(1, 4) + eps, F(1, 2) - eps], f"three-point, cdf at the median = 1/2 + {float(eps)}"))
+        extreme.append(Dist([lo_, (lo_ + hi_) / 2, hi_], [F(1, 2) - eps, F(1, 4) + eps, F(1, 4)], f"three-point, cdf below the median = 1/2 - {float(eps)}"))
+        extreme.append(Dist([lo_, hi_], [F(1, 2) + eps, F(1, 2) - eps], f"two-point, cdf at the lower atom = 1/2 + {float(eps)}"))
     for it in range(n_rand * 2 + len(extreme)):
         d = extreme[it - n_rand * 2] if it >= n_rand * 2 else random_dist(rng)
         if len(d.x) < 2:
@@ -217,7 +221,7 @@ def body(chk):
             specs.append(("pos_mean_std", lambda: pba.pos_mean_std(float(mu), sd), (0,), (n - 1,), ("FPosMeanStd", [float(mu), sd])))
         med = d.median()
         if med is not None:
-            specs.append(("min_max_median", lambda: pba.min_max_median(float(a), float(b), float(med)), (), (), None))
+            specs.append(("min_max_median", lambda: pba.min_max_median(float(a), float(b), float(med)), (), (), ("FMinMaxMedian", [float(a), float(b), float(med)])))
             specs.append(("known:min,max,median", lambda: pba.known_properties(minimum=float(a), maximum=float(b), median=float(med)), (), (), None))
         boundary = (mu - a) * (b - mu) - var <= F(1, 10 ** 6) * max(var, F(1, 10 ** 6))    # the largest variance the range and mean allow
         for name, f, exl, exr, coq in specs:
@@ -230,7 +234,7 @@ def body(chk):
             if LR is None:
                 continue
             chk.count(name, key=(name, tuple(d.x), tuple(d.w), slack))
-            if coq and it % 3 == 0:
+            if coq and (it % 3 == 0 or coq[0] == "FMinMaxMedian"):
                 coq_case(coq[0], coq[1], LR, site, replay)
             # the float mean / std of the constraint differ from the exact ones by rounding: relative tolerance 1e-7
             enclosure(chk, site, what, LR[0], LR[1], d, n, exempt_left=exl, exempt_right=exr, replay=replay, rel=1e-7)
@@ -285,7 +289,7 @@ RULE = ("finite distributions with exact rational atoms and weights: (a) for mea
         "distinct key = (constructor, constraint values, distribution)")
 TB = ["translator tools/translate_free.py (comprehension-based constructors min_mean, mean_std, pos_mean_std, min_max_mean; mean_var and max_mean checked to be the thin wrappers)",
       "the 199 -> 200 'next' interpolation inside Staircase is part of the run model (Model/Pbox.v), not of the step-wise theorems: theorems speak about the lists handed to Staircase",
-      "min_max_mean_std / _var (recurrence), min_max_median, min_max_mode are not translated: oracle only (mode: not exercised, finite distributions have no density mode)",
+      "min_max_median is translated (np.where over the grid) and proved; min_max_mean_std / _var (recurrence), min_max_mode are not translated: oracle only (mode: not exercised, finite distributions have no density mode)",
       "constraints are passed as binary64 roundings of the exact rational moments: enclosure tolerance 1e-7 relative for (b), 1e-9 for (a), (c)"]
 
 if __name__ == "__main__":
